@@ -19,7 +19,8 @@ from mc.core import require, Violation
 PROPERTY = 'C10'
 LEVEL = 'model_checking'
 
-COHORTS = {'A': [0], 'B': [1], 'AB': [0, 1], 'AC': [0, 2], 'BA': [1, 0], 'A2': [3]}  # index 3: client id of A, other data
+# index 3: client id of A, other data; C: a cohort without any example
+COHORTS = {'A': [0], 'B': [1], 'AB': [0, 1], 'AC': [0, 2], 'BA': [1, 0], 'A2': [3], 'C': [2]}
 SYSTEMS = {
     'fed_avg': ('fed_avg', {}),
     'fed_prox': ('fed_prox', {'mu': 0.5}),
